@@ -72,8 +72,8 @@ MIN_OUTCOMES = 200
 NAN = float("nan")
 SCALES = [0.5, 0.75, 1.0, 1.5]
 STRIDES = [1, 8, 16]
-TAGS_Q = ["none", "sq", "w", "small"]
-TAGS_T = ["none", "eq", "sq", "h", "w", "small", "wnone"]
+TAGS_Q = ["none", "sq", "w", "small", "heq_wless"]
+TAGS_T = ["none", "eq", "sq", "h", "w", "small", "wnone", "heq_wless", "weq_hless"]
 CROPS = [(8, 8), (16, 16), (24, 24), (8, 16), (16, 8), (16, 24)]
 CENTROIDS = ["centre", "l", "r", "t", "b", "tl", "tr", "bl", "br", "kp"]
 AFFINE_CFGS = [
@@ -101,6 +101,9 @@ def maxhw(tag, H, W):
         "w": (H, W + 13),
         "small": (int(H * 0.7), int(W * 0.7)),
         "wnone": (None, W + 13),
+        # one side exactly at its target, the other LARGER than its target (the frame must be scaled down)
+        "heq_wless": (H, int(W * 0.6)),
+        "weq_hless": (int(H * 0.6), W),
     }[tag]
 
 
